@@ -5,6 +5,7 @@ use crate::out::Out;
 use crate::util::json::J;
 use crate::util::rng::{mix, Rng};
 use crate::Args;
+#[allow(unused_imports)]
 use rarena_allocator::{sync, unsync, Allocator, ArenaPosition, Error, Freelist, Options};
 
 struct Seed {
